@@ -20,16 +20,14 @@ RULE = ("ops: durop <op> <L> <R> with op in neg abs add sub mul truediv floordiv
 EXHAUSTIVE = {"quick": False, "thorough": False}
 TRUSTED = [
     "Model/Dur.lean is a hand model of duration.py operators in exact integer microseconds, tied by this correspondence run",
-    "Model/DurFloat.lean models the same operators with their binary64 roundings (exact dyadic rationals); it answers the requests "
-    "outside the float-exact range (duropf) and carries the Lean counterexamples of F17/F18 - no theorem depends on it",
+    "Model/DurFloat.lean (float-faithful model of the pre-fix code) carries the Lean counterexamples of the former findings F17/F18; "
+    "it is no longer used by the correspondence run and no theorem depends on it",
     "native datetime.timedelta operators are the reference (oracle computes L op R on plain timedeltas of the same arguments)",
     "float scalars travel as float.as_integer_ratio(), which is exact",
 ]
 ASSUMPTIONS = [
-    "float bridge (as C09): every Duration is created by Duration.__new__, whose shadow slots are exact only on the float-exact range "
-    "(|part| < 2^33 s without years/months, |part|,|native| < 2^32 s with); model and code are compared when all Duration operands and "
-    "the result are inside it; +, -, * int additionally pass the result through Duration(seconds=<float>) and are compared below 2^31 s "
-    "(beyond: known findings F17/F18, the oracle still demands the exact native result everywhere)",
+    "since the fix 'Duration normalisation and +, -, * int are exact' every operator computes on integer microseconds; the exact model is "
+    "compared with the code on the whole input range (former findings F17/F18 are fixed; no float bridge any more)",
     "int / int true division (Duration / Duration) is CPython's correctly rounded long_true_divide; the model computes the nearest "
     "binary64 with exact integers (exponent range not modelled)",
     "truediv by a float with months != 0 goes through float divmod in the code and is not modelled (not generated)",
@@ -347,7 +345,8 @@ def line(op, backend):
     if o == "truediv" and R[0] == "F" and L[0] == "D" and L[2] != 0:
         return None
     # exact model (the one the theorems are about) inside the float-exact range, float-faithful model outside
-    return ("durop " if exact_domain(op) else "duropf ") + o + " " + _w(L) + " " + _w(R)
+    # since the exact-normalisation fix (Duration.__new__, +, -, * int on integer microseconds) the exact model applies everywhere
+    return "durop " + o + " " + _w(L) + " " + _w(R)
 
 
 # ------------------------------------------------------------------ real code
